@@ -363,7 +363,11 @@ func (w *world) jrpc(i ipT, c cred, method, body, shape string) {
 
 func (w *world) dial(i ipT) (*grpc.ClientConn, error) {
 	w.gl.mu.Lock()
-	w.gl.next = &net.TCPAddr{IP: net.ParseIP(i.host()), Port: 40123}
+	host, zone := i.host(), ""
+	if k := strings.IndexByte(host, '%'); k >= 0 {
+		host, zone = host[:k], host[k+1:] // a zone-scoped peer is a TCPAddr with a Zone, as the kernel reports it
+	}
+	w.gl.next = &net.TCPAddr{IP: net.ParseIP(host), Zone: zone, Port: 40123}
 	w.gl.mu.Unlock()
 	return grpc.Dial("bufnet", grpc.WithContextDialer(func(ctx context.Context, s string) (net.Conn, error) {
 		return w.gl.Dial()
@@ -501,7 +505,12 @@ func (w *world) eth(i ipT) {
 // ---------------------------------------------------------------- generators
 
 // canonical texts only: RemoteAddr always comes from net.Addr.String()
-var v6texts = []string{"fd00::2", "2001:db8::1", "fe80::1", "::2", "64:ff9b::808:808"}
+var v6texts = []string{"fd00::2", "2001:db8::1", "fe80::1", "::2", "64:ff9b::808:808",
+	// zone-scoped link-local addresses: net.ParseIP rejects them, the code then compares the raw text
+	"fe80::1%eth0", "fe80::2%lo"}
+
+// whitelist entries that are not IP literals (operators do write these); they can match no client
+var oddEntries = []string{"10.0.0.0/8", "example.org", "192.168.1.*", " 10.1.1.1", "<nil>", ""}
 
 func genIP(r *gen.Rand, pool []ipT) ipT {
 	switch r.Pick(4, 2, 2, 1, 2, 3) {
@@ -556,6 +565,9 @@ func genIPList(r *gen.Rand, pool []ipT) []string {
 		}
 		if r.Chance(1, 8) {
 			l = append(l, "127.0.0.1")
+		}
+		if r.Chance(1, 4) {
+			l = append(l, oddEntries[r.Intn(len(oddEntries))])
 		}
 		return l
 	case 3:
